@@ -25,6 +25,7 @@ from vlib import *
 
 KINDS = {"r": 0, "s": 1, "p": 2, "c": 3}
 NQUICK, NTHOROUGH = 1500, 12000
+MODES = [1, 2, 3, 3, 4]   # fault modes of one DB operation, see parse_faults
 CONSTS = {}   # constants printed by the executor (read from the built code)
 
 
@@ -69,12 +70,12 @@ class Sim:
             if "wp" in fl:
                 self.rec = tuple(fl["wp"])
             m = fl.get("p", 0)
-            if m == 2:
+            if m in (2, 4):
                 return None
             ok = self.rec is None or self.rec[0] in (me, old)
             if ok:
                 self.rec = (me, tick)
-            return None if m == 1 else ok
+            return None if m in (1, 3) else ok
 
         def follower(cur):
             s["role"], s["cur"] = "F", cur
@@ -144,7 +145,9 @@ class Sim:
 
 
 def parse_faults(fs):
-    """r1 r2 s p -> 1 (cancelled) / 2 (expired);  wp wr -> (instance id, tick) written by the executor at that point"""
+    """r1 r2 s p -> 1 cancelled (ErrCanceled) / 2 expired deadline (ErrInvalidDeadline) / 3 timed out (ErrTimeout, a
+    dragonboat "temporary" error) / 4 deadline below one tick (ErrTimeoutTooSmall); 1 and 3: a proposal is applied although
+    reported failed, 2 and 4: never submitted;  wp wr -> (instance id, tick) written by the executor at that point"""
     if fs == "-":
         return {}
     if fs == "REAL":
@@ -210,13 +213,13 @@ class Gen:
         if x < 0.30:
             ks = ["%s=%s" % (r.choice(["wp", "wp", "wr"]), self.rand_write(i))]
             if r.random() < 0.25:
-                ks.append("%s=%d" % (r.choice(["p", "r2", "s"]), r.choice([1, 2])))
+                ks.append("%s=%d" % (r.choice(["p", "r2", "s"]), r.choice(MODES)))
             return ",".join(ks)
         ks = []
         for k in ("r1", "s", "p", "r2"):
             if r.random() < (0.45 if k == "p" else 0.25):
-                ks.append("%s=%d" % (k, r.choice([1, 2])))
-        return ",".join(ks) if ks else "p=%d" % r.choice([1, 2])
+                ks.append("%s=%d" % (k, r.choice(MODES)))
+        return ",".join(ks) if ks else "p=%d" % r.choice(MODES)
 
     def arb(self, nturns, pfault=0.2, mono=True):
         r = self.rng
@@ -276,6 +279,11 @@ def gen_case(rng, thr, k, name):
             act = [i for i in range(n) if i not in stopped]
             if not act:
                 break
+            # the leader is not (only) paused but cut off from the DB: its lookups fail, in every error class, for a few
+            # turns (it has to step down at the first of them), then it is silent
+            for x in sorted(stopped):
+                for _ in range(rng.choice([0, 1, 1, 2, 3])):
+                    g.mv(x, rng.choice(["r1=1", "r1=2", "r1=3", "r1=3", "r1=3", "r1=4", "REAL", "r1=3,p=3", "r1=4,s=3"]))
             g.fair(act, thr + 2 + rng.randrange(0, 4))
             if rng.random() < 0.7:
                 g.fair(range(n), rng.randrange(1, 4))
@@ -314,6 +322,23 @@ def gen_case(rng, thr, k, name):
         for _ in range(thr + 1):
             for f in Fs:
                 g.mv(f)
+        if rng.random() < 0.5:
+            # the loser of a race is later the only candidate: f campaigns, a competitor (a stranger, or another follower
+            # that is never heard of again) takes the record between f's lookup and f's CAS, f's vote is rejected; the new
+            # holder is silent and f is the only server still running: f has to take over within the bound
+            f = rng.choice(Fs)
+            others = [x for x in Fs if x != f]
+            if others and rng.random() < 0.4:
+                w = rng.choice(others)
+                wr = "%d:%d" % (g.ids[w], g.ticks[w])
+            else:
+                wr = "%d:%d" % (dead_id(rng, g.ids), rng.randrange(0, 9))
+            g.mv(f, "wp=" + wr)
+            if rng.random() < 0.3:
+                g.mv(f, "wp=%d:%d" % (dead_id(rng, g.ids), rng.randrange(0, 9)) if rng.random() < 0.5 else "-")
+            g.fair([f], thr + 2 + rng.randrange(0, 3))
+            g.fair(range(n), rng.randrange(0, 3))
+            return g.case()
         for _ in range(rng.randrange(1, 4)):
             f = rng.choice(Fs)
             who = rng.random()
@@ -802,6 +827,8 @@ def run(ck):
     dist = {"servers": {}, "turns_per_schedule": {}, "ops_of_a_turn": {}, "fault_specs": {}, "role_after_turn": {}, "leaders_at_once": {},
             "static_round_seen": {}, "initial_record": {}}
 
+    ALLSPECS = {}
+
     def bump(d, k):
         d[k] = d.get(k, 0) + 1
     for c in cases:
@@ -811,6 +838,7 @@ def run(ck):
         for (i, t, fs), o in zip(c["turns"], obs[c["name"]]):
             bump(dist["ops_of_a_turn"], o["ops"])
             if fs != "-":
+                bump(ALLSPECS, fs)
                 bump(dist["fault_specs"], fs if fs == "REAL" else ",".join(sorted(x.split("=")[0] if x[0] == "w" else x for x in fs.split(","))))
             bump(dist["role_after_turn"], o["role"])
             bump(dist["leaders_at_once"], str(o["leaders"].count("1")))
@@ -818,6 +846,16 @@ def run(ck):
                 bump(dist["static_round_seen"], str(min(o["cur"][2], thr + 3)) + ("+" if o["cur"][2] >= thr + 3 else ""))
     dist["fault_specs"] = dict(sorted(dist["fault_specs"].items(), key=lambda kv: -kv[1])[:40])
     ck.cov["schedule_distribution"] = dist
+    ck.cov["fault_kinds"] = {
+        "1": "cancelled context: ErrCanceled; proposal applied but reported failed",
+        "2": "deadline already expired: ErrInvalidDeadline; never submitted",
+        "3": "timed out (Done closed, Err=DeadlineExceeded, valid own deadline; no wall clock): ErrTimeout, dragonboat.IsTempError class; proposal applied but reported failed",
+        "4": "deadline below one RTT tick: ErrTimeoutTooSmall / ErrInvalidDeadline; never submitted",
+        "REAL": "genuine context.WithCancel cancelled before the turn",
+        "wp/wr": "a competitor's write executed by the harness before the turn's proposal / before its read-back",
+        "not injectable": "ErrDeadlineNotSet (every operation derives its own WithTimeout); ErrSystemBusy/ErrShardNotReady/ErrShardClosed/ErrAborted need a broken shard - they are in the same IsTempError class as ErrTimeout (kind 3)",
+        "per_operation_counts": dict((k, dict((str(m), sum(v for fs, v in ALLSPECS.items() if ("%s=%d" % (k, m)) in fs.split(","))) for m in (1, 2, 3, 4)))
+                                     for k in ("r1", "s", "p", "r2"))}
     ck.cov["exhaustive"] = False
     ck.cov["turns_executed"] = sum(len(c["turns"]) for c in cases)
     for c in cases[:400]:
